@@ -124,6 +124,50 @@ func runC18(w *mon.W) {
 				}
 			}
 
+			// ---- AddCodonTable with a table in which some amino acids do not occur at all (a coding sequence
+			// without a stop codon, a short gene lacking W or C): still the sum, on every call
+			if k%2 == 0 {
+				t3 := deepTable(tid)
+				base := snapshot(t3)
+				weights := map[string]int{}
+				letters := base.letters()
+				absent := map[string]bool{"*": r.Intn(3) != 0}
+				for j := r.Intn(3); j > 0; j-- {
+					absent[letters[r.Intn(len(letters))]] = true
+				}
+				for _, l := range letters {
+					for c := range base.AA[l] {
+						if !absent[l] && r.Intn(4) != 0 {
+							weights[c] = 1 + r.Intn(60)
+						}
+					}
+				}
+				t3 = t3.OptimizeTable(codingSequenceFor(r, weights))
+				s3 := snapshot(t3)
+				for rep2 := 0; rep2 < 6; rep2++ {
+					for _, pr := range [][2]int{{1, 3}, {3, 1}} {
+						ta, sa, tb, sb := t1, s1, t3, s3
+						if pr[0] == 3 {
+							ta, sa, tb, sb = t3, s3, t1, s1
+						}
+						var sum3 codon.Table
+						if p := mon.Try(func() { sum3 = codon.AddCodonTable(ta, tb) }); p != "" {
+							w.Violation(id, "AddCodonTable with a table lacking some amino acids: "+p, rep)
+							continue
+						}
+						w.Add("add_calls_with_a_table_lacking_amino_acids", 1)
+						ss := snapshot(sum3)
+						for _, l := range sa.letters() {
+							for c, wa := range sa.AA[l] {
+								if ss.AA[l][c] != wa+sb.AA[l][c] {
+									w.Violation(id, fmt.Sprintf("AddCodonTable (call %d on the same pair; one table has no codon of %v): codon %s (%s) has weight %d, the inputs have %d + %d", rep2, absent, c, l, ss.AA[l][c], wa, sb.AA[l][c]), rep)
+								}
+							}
+						}
+					}
+				}
+			}
+
 			// ---- cut-off grid
 			var shares []float64
 			for _, s := range []plainTable{s1, s2} {
